@@ -81,6 +81,18 @@ type gProg struct {
 	ExitCodeFlag bool
 	FileSilent bool
 	CancelAtEvent int // 0 = none; cancel the caller ctx at the k-th probe event
+	IncSplit      int // 0 = single file; otherwise tasks with Idx >= IncSplit live in inc/Taskfile.yml, included as namespace "n"
+}
+
+// refName is the name by which task `to` is referenced from task `from` (or from the command line when from < 0).
+func (p *gProg) refName(from, to int) string {
+	if p.IncSplit == 0 || to < p.IncSplit {
+		return p.Tasks[to].Name
+	}
+	if from >= p.IncSplit {
+		return p.Tasks[to].Name // both live in the included file: local name
+	}
+	return "n:" + p.Tasks[to].Name
 }
 
 type gBias struct {
@@ -157,6 +169,9 @@ func genG(ch *vs.Choices, b gBias) *gProg {
 		p.FileRun = []string{"once", "when_changed", "always"}[ch.Draw(3)]
 	}
 	p.FileSilent = ch.Bool(1, 2)
+	if n >= 3 && ch.Bool(1, 3) {
+		p.IncSplit = 2 + ch.Draw(n-2)
+	}
 	for i := 0; i < n; i++ {
 		t := &gTask{Idx: i, Name: fmt.Sprintf("t%d", i)}
 		if ch.Pct(b.PDedup) {
@@ -473,16 +488,46 @@ func probeText(p *gProg, t *gTask, idx int, c gCmd) string {
 	return s + fmt.Sprintf("; echo %sE|%s|%s|%s%s", q, pe, t.Name, lab, q)
 }
 
+// Files renders the program: the root Taskfile and, if the program is split, the included one.
+func (p *gProg) Files() map[string]string {
+	m := map[string]string{"Taskfile.yml": p.render(0, len(p.Tasks), true)}
+	if p.IncSplit > 0 {
+		m["Taskfile.yml"] = p.render(0, p.IncSplit, true)
+		m["inc/Taskfile.yml"] = p.render(p.IncSplit, len(p.Tasks), false)
+	}
+	return m
+}
+
+// YAML is the concatenation of all files (used for hashing and error messages).
 func (p *gProg) YAML() string {
+	f := p.Files()
+	s := f["Taskfile.yml"]
+	if inc, ok := f["inc/Taskfile.yml"]; ok {
+		s += "--- inc/Taskfile.yml\n" + inc
+	}
+	return s
+}
+
+func (p *gProg) render(lo, hi int, root bool) string {
 	var sb strings.Builder
 	sb.WriteString("version: '3'\n")
-	if p.FileRun != "" {
+	if !root {
+		sb.WriteString("tasks:\n")
+	}
+	if root && p.FileRun != "" {
 		fmt.Fprintf(&sb, "run: %s\n", p.FileRun)
 	}
-	if p.FileSilent {
+	if root && p.FileSilent {
 		sb.WriteString("silent: true\n")
 	}
-	switch p.Output {
+	if root && p.IncSplit > 0 {
+		sb.WriteString("includes:\n  n: ./inc\n")
+	}
+	out := p.Output
+	if !root {
+		out = ""
+	}
+	switch out {
 	case "prefixed":
 		sb.WriteString("output: prefixed\n")
 	case "group":
@@ -500,8 +545,10 @@ func (p *gProg) YAML() string {
 			sb.WriteString("    error_only: false\n")
 		}
 	}
-	sb.WriteString("tasks:\n")
-	for _, t := range p.Tasks {
+	if root {
+		sb.WriteString("tasks:\n")
+	}
+	for _, t := range p.Tasks[lo:hi] {
 		fmt.Fprintf(&sb, "  %s:\n", t.Name)
 		fmt.Fprintf(&sb, "    desc: task %s\n", t.Name)
 		if t.Run != "" {
@@ -557,7 +604,7 @@ func (p *gProg) YAML() string {
 					}
 				}
 				item(renderFor(d))
-				item("task: " + p.Tasks[d.Target].Name)
+				item("task: " + p.refName(t.Idx, d.Target))
 				item(renderRefVars(p, t, d, edge, false))
 			}
 		}
@@ -595,14 +642,14 @@ func (p *gProg) YAML() string {
 			edge := "c" + labelExpr(k, c.Ref.For != nil, c.Ref.Matrix != nil)
 			if c.Defer {
 				v := renderRefVars(p, t, c.Ref, edge, c.DeferTplV)
-				fmt.Fprintf(&sb, "      - defer:\n          task: %s\n", p.Tasks[c.Ref.Target].Name)
+				fmt.Fprintf(&sb, "      - defer:\n          task: %s\n", p.refName(t.Idx, c.Ref.Target))
 				if v != "" {
 					fmt.Fprintf(&sb, "          %s\n", v)
 				}
 				continue
 			}
 			item(renderFor(c.Ref))
-			item("task: " + p.Tasks[c.Ref.Target].Name)
+			item("task: " + p.refName(t.Idx, c.Ref.Target))
 			item(renderRefVars(p, t, c.Ref, edge, false))
 			if c.Silent {
 				item("silent: true")
@@ -615,7 +662,7 @@ func (p *gProg) YAML() string {
 func (p *gProg) Config() map[string]any {
 	roots := []string{}
 	for i, r := range p.Roots {
-		s := p.Tasks[r.Target].Name
+		s := p.refName(-1, r.Target)
 		if effRun(p, p.Tasks[r.Target]) == "always" {
 			s += fmt.Sprintf(" P=r%d", i)
 		}
